@@ -923,6 +923,10 @@ func (in *Interp) binop(op token.Token, xt types.Type, a, b Value) Value {
 		switch op {
 		case token.ADD, token.SUB, token.MUL:
 			return intBin(op.String(), x, y)
+		case token.QUO:
+			// Go truncates, SMT div floors: identical for non-negative operands, which is all the ghost clock uses
+			in.assume(tAnd(intCmp(">=", x, mkInt(0)), intCmp(">", y, mkInt(0))))
+			return symInt("(div " + x.smt() + " " + y.smt() + ")")
 		case token.LSS, token.LEQ, token.GTR, token.GEQ:
 			return intCmp(op.String(), x, y)
 		}
